@@ -437,6 +437,12 @@ def judge_jobs(ctx, stream: str, cases: List[Dict[str, Any]], report: bool = Tru
         src = query_src(c)
         holds = bool(s.get("holds"))
         rec["ok"] = holds
+        flt = s.get("filters", {})
+        if report and not all(flt.values()):
+            # inside a defect exclusion / outside the modelled domain of run_spec_partial: those
+            # inputs are exercised by the known-findings stream only (GUIDE rule 4)
+            ctx.count("filtered:" + ",".join(k for k, v in flt.items() if not v))
+            continue
         if report:
             ctx.count(f"stream:{stream}")
             ctx.count(f"backend:{c['backend']}")
@@ -588,6 +594,47 @@ def subst_stream(ctx, n: int):
 # ----------------------------------------------------------------------------------------- tables as runtime objects
 
 
+def table_item_case(ctx, item: Dict[str, Any]) -> Dict[str, Any]:
+    """The failing table item as a concrete input: the row read from the source and, for a row, the
+    single-call query that uses it with what the real pipeline then requests."""
+    b = item.get("backend")
+    case: Dict[str, Any] = {"table_item": item}
+    rows = ctx.c06_data["backends"].get(b, {}).get("rows", []) if b in BACKENDS else []
+    row = next((r for r in rows if r["name"] == item.get("item")), None)
+    if item.get("kind") == "row" and row is not None:
+        case["row"] = {k: row[k] for k in ("backend", "name", "includes", "container", "element", "dt", "de", "libs")}
+        job = {"backend": b, "mds": [], "where": [], "main": "tuple", "items": [{"kind": "count" if row["element"] is not None else "single", "use": {"name": row["name"], "args": [{"s": "bank"}]}, "method": "pt"}]}
+        case["query"] = query_src(job)
+        im = run_impl(job)
+        case["job_requests"] = {"rejected": im.get("error")} if im.get("rejected") else {"includes": im["includes"], "libs": im["libs"], "block": [l for l in im["body"] if "result" in l]}
+    return case
+
+
+def tablechecks_stream(ctx, report: bool = True) -> List[Dict[str, Any]]:
+    """The table theorems item by item, so that a table that stops deciding names its failing row."""
+    a = ctx.driver(DRIVER, [{"op": "tablechecks"}])[0]
+    if "bad" in a:
+        return []
+    out = []
+    for item in a["failing"]:
+        case = table_item_case(ctx, item)
+        what = {
+            "row": "built-in row {item} of {backend} is not consistent with the experiment's naming scheme (container/element names, own header requested, link libraries = first path segments of the headers, pointer depths of the backend)",
+            "readme-collection-missing": "the README names the collection function {item} but the {backend} table has no such row",
+            "builtin-spec-differs-from-backend-convention": "a built-in of {backend} is not handed out with the backend's handle / pointer depths",
+            "documented-key-refused": "the README documents the key {item} for {backend} declarations but the branch refuses it",
+            "accepted-key-never-read": "the {backend} branch accepts the key {item} and never looks at it",
+            "default-method-types": "default method types: {item}",
+        }.get(item["kind"], item["kind"]).format(**item)
+        out.append({"key": f"table:{item['kind']}:{item['backend']}:{item['item']}", "what": what, "case": case})
+        if report:
+            ctx.violation(key=out[-1]["key"], what=what, case=case, observed=case.get("job_requests"), how="./check C06 --replay <this file> (re-reads the table from the source and re-evaluates the row predicate of Spec.lean)")
+    if report:
+        ctx.count("stream:tablechecks")
+        ctx.case("tablechecks", True, None)
+    return out
+
+
 def tables_stream(ctx):
     import importlib
 
@@ -614,21 +661,22 @@ def tables_stream(ctx):
 # ----------------------------------------------------------------------------------------- known findings / corpus
 
 
-def replay_entry(ctx, e: Dict[str, Any]) -> Optional[bool]:
-    """True: the listed input still fails; False: it passes; None: cannot be replayed."""
+def replay_entry(ctx, e: Dict[str, Any]):
+    """A non-empty reason: the listed input fails (now); "": it passes; None: cannot be replayed."""
     inp = e.get("input", {})
     if "case" in inp:
         recs = judge_jobs(ctx, "findings", [inp["case"]], report=False)
         if recs[0]["bad"]:
             return None
-        return not recs[0]["ok"]
+        return "" if recs[0]["ok"] else (str(recs[0]["spec"].get("why")) or "specification false")
     if "metadata" in inp:
         md = inp["metadata"]
         b = next((k for k, v in MDTYPE.items() if v == md.get("metadata_type")), "atlas")
         a = ctx.driver(DRIVER, [{"op": "validate", "backend": b, "md": md_json(md)}])[0]
         if "bad" in a:
             return None
-        return a["valid"] != ("rejected" not in impl_validate(md))
+        im = impl_validate(md)
+        return "" if a["valid"] == ("rejected" not in im) else f"well formed={a['valid']}, process_metadata: {im.get('rejected', 'accepted')}"
     return None
 
 
@@ -642,7 +690,12 @@ def findings_stream(ctx):
         r = replay_entry(ctx, e)
         ctx.count("stream:fixed-findings")
         if r:
-            ctx.violation(key="regressed:" + e["key"], what="a repaired defect is back: " + e["what"], case=e.get("input", {}).get("case", e.get("input")), how="./check C06 --replay <this file>")
+            ctx.violation(
+                key="regressed:" + e["key"],
+                what=f"the input of a repaired defect fails again: {r} (the repaired defect was: {e['what']})",
+                case=e.get("input", {}).get("case", e.get("input")),
+                how="./check C06 --replay <this file>",
+            )
 
 
 def systematic_cases(ctx) -> List[Dict[str, Any]]:
@@ -678,6 +731,7 @@ def run(ctx):
     if corpus:
         judge_jobs(ctx, "corpus", corpus)
     tables_stream(ctx)
+    tablechecks_stream(ctx)
     validate_stream(ctx)
     subst_stream(ctx, 1500 if ctx.tier == "quick" else 20000)
     judge_jobs(ctx, "systematic", systematic_cases(ctx))
@@ -734,6 +788,9 @@ def search(ctx, broken):
     then a random sweep, with the Spec on the implementation's text as the only judge."""
     if not hasattr(ctx, "c06_data"):
         translate(ctx)
+    tb = tablechecks_stream(ctx, report=False)
+    if tb:
+        return {**tb[0], "observed": tb[0]["case"].get("job_requests"), "replay_how": "./check C06 --replay <this file>"}
     cases = systematic_cases(ctx)
     for b in BACKENDS:
         for singleton in ([False, True] if b == "atlas" else [False]):
@@ -776,6 +833,13 @@ def replay(ctx, rep) -> int:
         print("process_metadata:", im)
         print("well formed according to the specification:", a.get("valid"))
         return 0 if a.get("valid") == ("rejected" not in im) else 1
+    if isinstance(case, dict) and "table_item" in case:
+        tb = tablechecks_stream(ctx, report=False)
+        hit = [t for t in tb if t["case"]["table_item"] == case["table_item"]]
+        print("table items failing now:", [t["key"] for t in tb])
+        for t in hit:
+            print(json.dumps(t["case"], indent=1)[:2000])
+        return 1 if hit else 0
     if not isinstance(case, dict) or "backend" not in case:
         print("replay file carries no job case:", json.dumps(rep)[:400])
         return 1
@@ -819,10 +883,55 @@ THEOREMS = ["FaxVerif.C06." + t for t in [
     "run_spec_element_pointer_counterexample",
 ]]
 
-RULE = ""
-TRUSTED_BASE: List[str] = []
-ASSUMPTIONS: List[str] = []
-LEVEL_TEXT = ""
-LEVEL_NOTE = ""
+RULE = (
+    "jobs: a backend, 0-3 metadata declarations of collections (new names or names of built-ins, ATLAS also singletons, headers that overlap "
+    "with built-ins' headers, optional link libraries / element_pointer=False, shuffled key order), 0-2 Where clauses and a tuple Select of "
+    "1-5 items or a SelectMany, every item one or two collection calls (element method in a Select, Count, nested inside another collection's "
+    "lambda, singleton method) with banks from a pool incl. quotes, backslash, tab, empty, non-ASCII, the words collection_name/result, the same "
+    "collection and the same bank twice; 22% of the cases carry one fault (unknown key, missing required key, element_type/contains_collection "
+    "mismatch, declaration for another backend, no / two / integer / non-constant argument); plus every built-in alone and every ordered pair "
+    "of built-ins per backend. A job is non-trivial when it is translated and has >=2 collection calls or >=1 declaration; distinct = distinct "
+    "(backend, query text). process_metadata: every subset of 8 keys x contains_collection x 3 backends (non-trivial: accepted or well formed). "
+    "_replace_whole_words: the running-code lines plus random concatenations of 21 atoms (non-trivial: contains the word collection_name). "
+    "Inputs inside a defect exclusion of a _partial theorem are produced by the known-findings stream only."
+)
+TRUSTED_BASE = [
+    "hand model lean/FaxVerif/C06/Model.lean of validate/declare/lookup/get_collection/process_ast_node, tied to the code by the job, process_metadata, "
+    "_replace_whole_words and built-in-table correspondence streams of this run",
+    "tools/c06_lib/translate.py (Python ast -> Lean data; anything it cannot interpret lands in Gen.unrecognised and breaks theorem source_recognised)",
+    "the harness tools/props/c06.py and tools/pipeline.py (query generator, canonicalisation of generated names by first occurrence as whole words, "
+    "reading the include / LINK_LIBRARIES lines of the rendered files); the text reader observeText of Spec.lean (executed by the driver, not verified)",
+    "the consumer model (Frag.observe): a collection value is only ever iterated and its elements accessed with the operator of the declared element "
+    "pointer depth, a singleton value is accessed through the pointer - tied by the same job stream",
+    "C++ meaning of ANA_CHECK / retrieve / getByLabel / getByToken / consumes (runRetrieve is a three-line semantics of the checked idiom); "
+    "string literal escaping is C18's subject (cppLit is re-stated here and tied by the job stream)",
+    "func_adl (front end, extract_metadata order: outermost MetaData first, simplify_chained_calls) - tied only by correspondence",
+]
+ASSUMPTIONS = [
+    "metadata values have the documented Python types (Md.WellTyped); other types are outside the model",
+    "type names, collection names and code lines are ASCII (Python's \\b and str.lower are modelled on ASCII; C11 lists the non-ASCII finding)",
+    "collection names do not end in a digit (unique_name = name + counter is injective only then; C02/C11 list that finding)",
+    "one MetaData dict per declaration with distinct keys; the order in which declarations reach process_metadata is func_adl's (outermost first)",
+]
+LEVEL_TEXT = (
+    "Machine-checked proof (Lean 4, 28 theorems) about an executable model of the collection path (process_metadata branches, backend test, "
+    "name table with override, get_collection, whole-word substitution of the bank, process_ast_node, include/library accumulation, name counter): "
+    "for every backend, every list of metadata declarations, every list of collection calls with arbitrary bank strings and repetitions and every "
+    "position of the name counters, run_spec_partial proves RunSpec: refusal exactly for malformed/foreign declarations and ill-shaped calls, "
+    "otherwise one block `T x; { T result(=0); IDIOM_b(T, bank); x = result; }` per call with the hand-written idiom of the backend, distinct "
+    "variables, distinct once-declared once-initialised miniAOD tokens, singleton = value, headers/libraries de-duplicated in order of first use; "
+    "plus validate_iff, override, backend_refused, call_shape, dedup, failed_retrieve_aborts and decide-theorems over the tables regenerated from "
+    "the source on every run (built-in rows, default types, whitelists vs README). The decidable RunSpec is evaluated on the text the real "
+    "pipeline produced for every generated job; model and implementation are compared on the same inputs."
+)
+LEVEL_NOTE = (
+    "Partial where the code violates the property: run_spec_partial excludes (decidable hypotheses, each with a counterexample theorem and a listed "
+    "finding replayed every run) CMS element_pointer=True (accepted, ignored), CMS singleton declarations (KeyError), container types containing the "
+    "word collection_name (hit by the substitution); and collection names ending in a digit (unique_name collision, C02/C11). "
+    "Trusted: Lean kernel (axioms audited: propext, Classical.choice, Quot.sound), the hand model's agreement with the Python (differential execution, "
+    "not proved), the translator, the harness, the text reader, the consumer model; where in the per-event code the translator places the block "
+    "(C01's Gen model) is not part of this claim - blocks are found wherever they are. No g++/mock-store run: failed_retrieve_aborts rests on a "
+    "stated semantics of the status-checked idiom."
+)
 TECHNIQUE = "Lean 4 theorems over an executable model + source translator (tables, templates, metadata branches) + differential execution against the real pipeline"
 DESIGN_REF = "DESIGN.md §4 C06"
